@@ -582,7 +582,7 @@ func (g *c10Gen) enumerate(maxDepth int) {
 	// Recipients without connection (session kept for a resume): what is sent to them is
 	// stored, and storePendingMessage looks into the payload (ServerMessage.IsChatRefresh:
 	// {"type":"chat","chat":{"refresh":bool}}).  Every payload to the session itself, to its
-	// room, to its user, to the call (it is not in the call), and to connected recipients.
+	// room, to its user, to the call (it is in the call, nobody else is), and to connected recipients.
 	chats := []c11Shape{
 		{"type-only", data(kv("type", js("chat")))},
 		{"chat-null", data(kv("type", js("chat")), kv("chat", jz()))},
@@ -621,7 +621,7 @@ func (g *c10Gen) enumerate(maxDepth int) {
 	for _, s := range chats {
 		for _, rc := range offRcpts {
 			home := []int{2, 1, 3}
-			if rc.n == "call" || rc.n == "other" {
+			if rc.n == "other" {
 				home = []int{2}
 			}
 			g.items = append(g.items, c10Item{"store/" + s.name + "/" + rc.n, c10Msg("s1", "message", kv("message", jo(kv("recipient", rc.v), kv("data", s.v)))), home})
